@@ -564,7 +564,108 @@ func c13MapEntryOrders(c *Ctx) {
 	}
 }
 
+// c13DeclarationOrders: the ids of a struct's fields need not ascend in the order the Go type declares them (embedded
+// structs, fields added later): whatever order the fields are written in, every field header must say the field's own
+// id - read here by a reader of the harness's own (compact: a delta only when the id is above the one before it by at
+// most 15) - and the value must come back
+type c13Emb struct {
+	E1 int32 `thrift:"1"`
+	E9 bool  `thrift:"9"`
+}
+type c13Desc struct {
+	F30 int32  `thrift:"30"`
+	F2  int32  `thrift:"2"`
+	F17 string `thrift:"17"`
+	c13Emb
+	F3  bool  `thrift:"3"`
+	F16 int32 `thrift:"16"`
+}
+
+// compactFieldIDs reads the field ids of a compact struct whose values are i32, bool or binary
+func compactFieldIDs(b []byte) (ids []int, ok bool) {
+	last := 0
+	for len(b) > 0 {
+		h := b[0]
+		b = b[1:]
+		if h == 0 {
+			return ids, len(b) == 0
+		}
+		id := last + int(h>>4)
+		if h>>4 == 0 {
+			u, n := binary.Uvarint(b)
+			if n <= 0 {
+				return ids, false
+			}
+			b = b[n:]
+			id = int(int32(u>>1) ^ -int32(u&1))
+		}
+		ids, last = append(ids, id), id
+		switch h & 15 {
+		case 1, 2:
+		case 5:
+			_, n := binary.Uvarint(b)
+			if n <= 0 {
+				return ids, false
+			}
+			b = b[n:]
+		case 8:
+			l, n := binary.Uvarint(b)
+			if n <= 0 || int(l) > len(b)-n {
+				return ids, false
+			}
+			b = b[n+int(l):]
+		default:
+			return ids, false
+		}
+	}
+	return ids, false
+}
+
+func c13DeclarationOrders(c *Ctx) {
+	vals := []c13Desc{
+		{F30: 30, F2: 2, F17: "s", c13Emb: c13Emb{E1: 1, E9: true}, F3: true, F16: 16},
+		{F30: 30, F2: 2}, {F2: 2, c13Emb: c13Emb{E1: 1}}, {F17: "x", F16: 16}, {F30: 1, F3: true}, {c13Emb: c13Emb{E9: true}, F3: true},
+	}
+	for vi, v := range vals {
+		for _, pn := range protoNames {
+			p := protoOf(pn)
+			k := thriftCase{Proto: pn, What: fmt.Sprintf("declaration orders value=%d", vi)}
+			var b []byte
+			var err error
+			c.Case()
+			c.Eval(1)
+			if pan := protect(func() { b, err = thrift.Marshal(p, v) }); pan != "" || err != nil {
+				c.Diverge("C13", "thrift.Marshal(field ids not ascending in declaration order)["+pn+"]", "bytes", fmt.Sprintf("%v %s", err, pan), "", k)
+				continue
+			}
+			if pn == "compact" {
+				want := map[int]bool{}
+				for id, nz := range map[int]bool{30: v.F30 != 0, 2: v.F2 != 0, 17: v.F17 != "", 1: v.E1 != 0, 9: v.E9, 3: v.F3, 16: v.F16 != 0} {
+					if nz {
+						want[id] = true
+					}
+				}
+				ids, ok := compactFieldIDs(b)
+				got := map[int]bool{}
+				for _, id := range ids {
+					got[id] = true
+				}
+				if !ok || !reflect.DeepEqual(got, want) || len(ids) != len(want) {
+					c.Diverge("C13", "thrift.Marshal(field ids not ascending in declaration order)[compact]", fmt.Sprintf("field headers for the ids %v", want),
+						fmt.Sprintf("ids %v (well formed: %v) bytes=%x", ids, ok, b), "", k)
+					continue
+				}
+			}
+			var back c13Desc
+			if pan := protect(func() { err = thrift.Unmarshal(p, b, &back) }); pan != "" || err != nil || back != v {
+				c.Diverge("C13", "thrift.Unmarshal(Marshal(v))(field ids not ascending in declaration order)["+pn+"]", fmt.Sprintf("%+v", v), fmt.Sprintf("%+v err=%v %s bytes=%x", back, err, pan, b), "", k)
+			}
+		}
+	}
+}
+
 func c13Doubles(c *Ctx) {
+	c13DeclarationOrders(c)
 	c13Sources(c)
 	c13MapEntryOrders(c)
 	vals := []float64{0, math.Copysign(0, -1), 1, -1, math.Inf(1), math.Inf(-1), math.Float64frombits(0x7ff8000000000001), math.SmallestNonzeroFloat64,
@@ -627,6 +728,10 @@ func c13Replay(c *Ctx, raw stdjson.RawMessage) {
 	}
 	if strings.HasPrefix(k.What, "map entry order") {
 		c13MapEntryOrders(c)
+		return
+	}
+	if strings.HasPrefix(k.What, "declaration orders") {
+		c13DeclarationOrders(c)
 		return
 	}
 	if strings.HasPrefix(k.What, "double bits=") {
@@ -938,6 +1043,25 @@ func c04Vector(c *Ctx, raw stdjson.RawMessage) {
 		c.Case()
 		c04Run(c, thriftCase{Layout: v.Layout, Vals: v.Vals, Salt: salt, Hist: c04Histories[r.intn(len(c04Histories))]})
 	}
+	// another conformant encoding of the same content: the entries of every map in the opposite order
+	if hasTwoEntryMap(v.Vals) && len(v.BinRevAsIs) > 0 {
+		for _, salt := range []int{0, 1 + r.intn(tMaxTable-1)} {
+			l := tlift{salt}
+			want := tTreeGo(v.Layout, l.structValue(v.Layout, v.Vals))
+			for _, pn := range protoNames {
+				items, fwd := v.BinRevAsIs, v.BinAsIs
+				if pn == "compact" {
+					items, fwd = v.CompRevAsIs, v.CompAsIs
+				}
+				rev := l.expand(items)
+				if bytes.Equal(rev, l.expand(fwd)) {
+					continue // the two entries are equal
+				}
+				c.Case()
+				c04Reversed(c, thriftCase{Layout: v.Layout, Vals: v.Vals, Salt: salt, Proto: pn, What: "map entries reversed", Bytes: hex.EncodeToString(rev), Want: want})
+			}
+		}
+	}
 	// lifting: byte sequences above the readers' 4096-byte threshold, several in one value, later ones shorter
 	if hasBinary(v.Layout) {
 		c.Case()
@@ -989,9 +1113,30 @@ func sameEncoding(a, b []byte, permuted bool) bool {
 	return permuted && sortedBytes(a) == sortedBytes(b)
 }
 
+// c04Reversed: the specification's encoding of the same content with the entries of every map in the opposite order
+// (ThriftWire.Rev) decodes to the same value
+func c04Reversed(c *Ctx, k thriftCase) {
+	b, _ := hex.DecodeString(k.Bytes)
+	p := protoOf(k.Proto)
+	out := reflect.New(tStructType(k.Layout))
+	var err error
+	c.Eval(1)
+	if pa := protect(func() { err = thrift.Unmarshal(p, b, out.Interface()) }); pa != "" || err != nil {
+		c.Diverge("C04", "thrift.Unmarshal(map entries in the opposite order)["+k.Proto+"]", k.Want, fmt.Sprintf("%s err=%v bytes=%x", pa, err, b), "", k)
+		return
+	}
+	if got := tTreeGo(k.Layout, out.Elem()); got != k.Want {
+		c.Diverge("C04", "thrift.Unmarshal(map entries in the opposite order)["+k.Proto+"]", k.Want, got+fmt.Sprintf(" bytes=%x", b), "", k)
+	}
+}
+
 func c04Replay(c *Ctx, raw stdjson.RawMessage) {
 	var k thriftCase
 	if stdjson.Unmarshal(raw, &k) == nil {
+		if k.What == "map entries reversed" {
+			c04Reversed(c, k)
+			return
+		}
 		if strings.HasPrefix(k.What, "embedded structs") || strings.HasPrefix(k.What, "recursive types") || strings.HasPrefix(k.What, "long lists") {
 			c04Embedded(c)
 			return
@@ -1646,8 +1791,66 @@ func c08IdZero(c *Ctx) {
 	}
 }
 
+// c08TopLevelTargets: values of every kind as the whole input of Unmarshal and Decoder.Decode (no struct around them
+// to turn an end of input into "unexpected"): every proper prefix of a non-empty encoding gives an unexpected-EOF class
+// error - plain io.EOF is for the empty input only - and the whole encoding decodes
+func c08TopLevelTargets(c *Ctx) {
+	type st struct {
+		A int32  `thrift:"1"`
+		S string `thrift:"2"`
+	}
+	values := []any{
+		map[int32]struct{}{1: {}, 2: {}, 300: {}}, map[string]struct{}{"a": {}, "bcd": {}}, []int64{1, 2, 3}, []string{"x", "", "yz"},
+		map[string]int32{"k": 1, "l": 2}, map[int8][]string{1: {"a"}, 2: {}}, "text", []byte("bytes"), int64(-5), 1.5, true,
+		st{7, "s"}, []st{{1, "a"}, {2, ""}}, map[string]st{"k": {3, "c"}}, map[int32]map[string]struct{}{1: {"s": {}}}, [][]int16{{1}, {}, {2, 3}},
+	}
+	for _, pn := range protoNames {
+		p := protoOf(pn)
+		for vi, v := range values {
+			b, err := thrift.Marshal(p, v)
+			if err != nil {
+				continue
+			}
+			t := reflect.TypeOf(v)
+			for cut := 0; cut <= len(b); cut++ {
+				k := thriftCase{Proto: pn, What: fmt.Sprintf("top-level targets value=%d cut=%d", vi, cut)}
+				for _, api := range []string{"thrift.Unmarshal", "Decoder.Decode"} {
+					out := reflect.New(t)
+					var derr error
+					c.Case()
+					c.Eval(1)
+					if pan := protect(func() {
+						if api == "thrift.Unmarshal" {
+							derr = thrift.Unmarshal(p, b[:cut], out.Interface())
+						} else {
+							derr = thrift.NewDecoder(p.NewReader(onlyRead{bytes.NewReader(b[:cut]), 3})).Decode(out.Interface())
+						}
+					}); pan != "" {
+						c.Diverge("C08", api+"(a value of any kind as the whole input, cut short)["+pn+"]", "an error, no panic", pan, "", k)
+						continue
+					}
+					switch {
+					case cut == len(b):
+						if derr != nil {
+							c.Diverge("C08", api+"(a value of any kind as the whole input)["+pn+"]", "nil error", fmt.Sprintf("%v (%T)", derr, v), "", k)
+						}
+					case cut == 0:
+						if derr == nil {
+							c.Diverge("C08", api+"(empty input)["+pn+"]", "an error", fmt.Sprintf("nil (%T)", v), "", k)
+						}
+					case derr == nil || errors.Is(derr, io.EOF) && !isUnexpectedEOF(derr):
+						c.Diverge("C08", api+"(a value of any kind as the whole input, cut short)["+pn+"]", "an unexpected-EOF class error",
+							fmt.Sprintf("err=%v (%T, first %d of %d bytes)", derr, v, cut, len(b)), "", k)
+					}
+				}
+			}
+		}
+	}
+}
+
 func c08ForeignBools(c *Ctx) {
 	c08IdZero(c)
+	c08TopLevelTargets(c)
 	type full struct {
 		A int32  `thrift:"1"`
 		L []bool `thrift:"9"`
@@ -1773,7 +1976,7 @@ func c08Replay(c *Ctx, raw stdjson.RawMessage) {
 			c08Alloc(c, k.Alloc)
 			return
 		}
-		if strings.HasPrefix(k.What, "foreign bools") || k.What == "field id 0" {
+		if strings.HasPrefix(k.What, "foreign bools") || k.What == "field id 0" || strings.HasPrefix(k.What, "top-level targets") {
 			c08ForeignBools(c)
 			return
 		}
